@@ -16,6 +16,7 @@ func init() {
 			c.run("C09-V", "validator recognition: accepting paths of the path-element validator establish the element facts", c09Validators)
 			c.run("C09-D", "the decoder validates every element of the peer's path list before returning the object", c09Decoder)
 			c.run("C09-I", "shared with C07-R1/C10-R4: the only removals while receiving iterate the recorded created paths", func(c *Ctx) { c07R1(c); c10R4(c) })
+			c.run("C09-W", "WHO-WRITES: the validated path list is not rewritten between validation and use", c09WhoWrites)
 			c.run("C09-T", "TAINT: every non-root join element in the receive path is trusted or validated", c09Taint)
 		})
 }
@@ -503,5 +504,44 @@ func c09Taint(c *Ctx) {
 				}
 			}
 		})
+	}
+}
+
+// c09WhoWrites: a validated path list stays what was validated. The list of a decoded entry is written by the JSON
+// decoder only; in the functions reachable while receiving, and in the decoder itself, nothing stores into the
+// RelPath field or into an element of a RelPath slice (a "clean-up" of the names after the check — trimming,
+// normalising — would turn an accepted " .." into ".."). The sender's scan builds its own entries from the local
+// file system through composite literals, which are stores into fresh objects in functions outside that reach.
+func c09WhoWrites(c *Ctx) {
+	reach := c.reachableFrom(c.recvRoots()...)
+	n := 0
+	for _, f := range c.AllFns {
+		nm := c.fnName(f)
+		if !reach[f] && nm != "unmarshalSourceFile" {
+			continue
+		}
+		eachInstr(f, func(in ssa.Instruction) {
+			st, ok := in.(*ssa.Store)
+			if !ok {
+				return
+			}
+			if fn, ok := fieldAddrName(st.Addr); ok && fn == "sourceFile.RelPath" {
+				n++
+				c.bad("RelPath/no-writer/"+nm, c.ipos(st), "the peer's path list is reassigned after decoding: what is joined below the destination is no longer what was validated")
+				return
+			}
+			if ia, ok := st.Addr.(*ssa.IndexAddr); ok {
+				for _, l := range origins(ia.X, originOpts{throughSlice: true}) {
+					if isFieldLoad("RelPath")(l.V) {
+						n++
+						c.bad("RelPath/no-writer/"+nm, c.ipos(st), "an element of the peer's path list is rewritten after decoding: what is joined below the destination is no longer what was validated")
+						return
+					}
+				}
+			}
+		})
+	}
+	if n == 0 {
+		c.ok("RelPath/no-writer", "", "nothing reachable while receiving writes the decoded path list or its elements")
 	}
 }
